@@ -274,4 +274,24 @@ Definition answer_ok_pre (veqb : V -> V -> bool) (ents : list (shape * (V * list
     existsb (cand_ok veqb ms p v ps) ents
   end.
 
+(* wf_patset with its conjunctions evaluated left to right. shape_eqb compares two shapes with andb, which
+   evaluates both sides under vm_compute: every pair of keys was compared over its whole length, so the
+   pairwise-distinct-shapes clause cost (number of keys)^2 * key length (200 s for 1 600 keys of 70 bytes).
+   The variant below stops at the first differing token; wf_patset_sc_eq shows it IS wf_patset. *)
+Fixpoint shape_eqb_sc (a b : shape) : bool :=
+  match a, b with
+  | [], [] => true
+  | x :: a', y :: b' => if stok_eqb x y then shape_eqb_sc a' b' else false
+  | _, _ => false
+  end.
+
+Fixpoint nodup_shapes_sc (l : list shape) : bool :=
+  match l with
+  | [] => true
+  | x :: r => if existsb (shape_eqb_sc x) r then false else nodup_shapes_sc r
+  end.
+
+Definition wf_patset_sc (pats : list (bytes * V)) : bool :=
+  if forallb (fun kv => key_ok (fst kv)) pats then nodup_shapes_sc (map fst (entries_of pats)) else false.
+
 End Shared.
